@@ -221,3 +221,58 @@ func VerifC03_AfterScale() {
 	verifAssert("nothing.alive.at.end", vAliveTotal() == 0)
 	verifReach("end")
 }
+
+// C03 (processes started by hand): a disabled (or foreground) process that was started through
+// the API is part of the running project: a project shutdown - default or ordered - ends it
+// like any other process, nothing is reported running and Run() returns.
+func VerifC03_ManualStart() {
+	w := vInit()
+	ordered := verifChooseK("ordered", 2) == 1
+	dependsOnBase := verifChooseK("manual.depends.on.base", 2) == 1
+	base := vConf("base", nil)
+	var manual types.ProcessConfig
+	if dependsOnBase {
+		verifShape("manual.depends.on.base")
+		manual = vConf("manual", map[string]string{"base": types.ProcessConditionStarted})
+	} else {
+		manual = vConf("manual", nil)
+	}
+	manual.Disabled = true
+	w.behav["base"] = &vBehav{untilStop: []bool{true}}
+	w.behav["manual"] = &vBehav{untilStop: []bool{true}}
+	var mu sync.Mutex
+	shutReturned := false
+	w.onStart = func(name string, attempt int) {
+		mu.Lock()
+		defer mu.Unlock()
+		if shutReturned {
+			verifFail("launch.after.shutdown.returned")
+		}
+	}
+	r := vRunner(vProject(base, manual), ordered)
+	runDone := make(chan error, 1)
+	go func() { runDone <- r.Run() }()
+	verifQuiesce()
+	verifAssert("manual.start.succeeds", r.StartProcess("manual") == nil)
+	verifQuiesce()
+	verifAssert("both.run", vGet(w.alive, "base") == 1 && vGet(w.alive, "manual") == 1)
+	_ = r.ShutDownProject()
+	mu.Lock()
+	shutReturned = true
+	mu.Unlock()
+	if k := vAliveTotal(); k != 0 {
+		verifShape("alive:" + vAliveNames())
+		verifFail("alive.after.shutdown.returned")
+	}
+	st, err := r.GetProcessesState()
+	if err == nil {
+		for _, s := range st.States {
+			if s.IsRunning {
+				verifFail("reported.running.after.shutdown.returned")
+			}
+		}
+	}
+	<-runDone
+	verifQuiesce()
+	verifReach("end")
+}
